@@ -249,6 +249,21 @@ def check_property(pid, harness_path, tier, seed, only=None):
     run_jobs(jobs, tier, seed)
     print(f'  workers done in {time.time() - t_jobs:.0f}s', file=sys.stderr, flush=True)
 
+    # 2b. every reachability witness (a concrete input that reached the assertion under the
+    # encoding) is also run through the unmodified code in real mode: the encoding (transforms,
+    # SQL model, stubs) and the real implementation must agree on it
+    from concurrent.futures import ThreadPoolExecutor
+    twin_jobs = [j for j in jobs if j['mode'] == 'twin' and j['result'].get('verdict') == 'counterexample'
+                 and j['result'].get('cex_call')]
+
+    def _validate(j):
+        return j, replay_call(harness_path, j['fn'], j['part'], j['result']['cex_call'], timeout=120)
+    validated = {}
+    if twin_jobs and os.environ.get('VF_NO_VALIDATE') != '1':
+        with ThreadPoolExecutor(max_workers=NJOBS) as ex:
+            for j, rr in ex.map(_validate, twin_jobs):
+                validated[j['n']] = rr
+
     # 3. interpret -------------------------------------------------------------------
     ob_rows = []
     for o in obs:
@@ -297,6 +312,21 @@ def check_property(pid, harness_path, tier, seed, only=None):
             elif j['mode'] == 'twin':
                 if v == 'counterexample':
                     row.setdefault('twin_witnesses', []).append(r.get('cex_call'))
+                    rr = validated.get(j['n'])
+                    if rr is not None:
+                        row['validated_on_real_code'] = row.get('validated_on_real_code', 0) + 1
+                        if rr.get('result') in (False, 'exception', 'timeout'):
+                            rp = write_replay(pid, o.name, dict(
+                                harness=os.path.relpath(harness_path, VERIF), fn=o.fn,
+                                part=j['part'], call=r['cex_call']), rr,
+                                'sampled input fails on the real code (found by real-mode '
+                                'validation of a reachability witness, not by the solver)')
+                            violations.append({'ob': o.name, 'call': r['cex_call'], 'replay': rp,
+                                               'what': 'real code fails on a sampled input'})
+                            row['real_mode_failure'] = r['cex_call']
+                        elif rr.get('result') is not True:
+                            notes.append(f"{o.name}[{j['part']}]: reachability witness could not "
+                                         f"be replayed in real mode: {str(rr)[:200]}")
                 elif v == 'no-counterexample-in-budget':
                     notes.append(f"{o.name}[{j['part']}]: reachability twin did not finish in "
                                  f"budget")
@@ -333,7 +363,7 @@ def check_property(pid, harness_path, tier, seed, only=None):
                                           f"{r.get('error', '')[-800:]}")
                 else:
                     notes.append(f"{o.name}: canary '{cname}' not killed within budget ({v})")
-        if any(v == 'violation' for v in verdicts):
+        if any(v == 'violation' for v in verdicts) or row.get('real_mode_failure'):
             row['verdict'] = 'violation'
         elif any(v in ('harness-error', 'pre-unsat') for v in verdicts):
             row['verdict'] = 'harness-error'
